@@ -124,10 +124,13 @@ qname   ::= ident ('.' ident)*
 ```
 Whitespace is skipped between tokens.  Fuel-based, structurally recursive. -/
 def isLetter (c : Char) : Bool := ('a' ≤ c ∧ c ≤ 'z') ∨ ('A' ≤ c ∧ c ≤ 'Z')
+/-- beyond ASCII: the code points `char::is_alphabetic` accepts (an approximation of ECMAScript's `ID_Start` /
+    `ID_Continue` that is exact on the scripts the generators use) -/
+def isUniLetter (c : Char) : Bool := 128 ≤ c.toNat && L.inRanges Gen.alphaRanges c.toNat
 def isDigitC (c : Char) : Bool := '0' ≤ c ∧ c ≤ '9'
 /-- IdentifierStart / IdentifierPart of the ASCII identifiers the tool can emit -/
-def isIdStart (c : Char) : Bool := isLetter c || c = '_' || c = '$'
-def isIdChar (c : Char) : Bool := isLetter c || isDigitC c || c = '_' || c = '$'
+def isIdStart (c : Char) : Bool := isLetter c || c = '_' || c = '$' || isUniLetter c
+def isIdChar (c : Char) : Bool := isLetter c || isDigitC c || c = '_' || c = '$' || isUniLetter c
 
 /-- ECMAScript reserved words (+ strict-mode / module-code reserved identifiers) that are legal Rust identifiers
     or can arise from them -/
